@@ -108,6 +108,7 @@ def parseAction (s : String) : Option Action :=
   | ["val", k, p] => do some (.valUpdate k (← p.toNat?))
   | ["ics20", amt, denom, ch, fa, b, id, blk, ret] =>
     do some (.ics20 (← amt.toNat?) denom (← ch.toNat?) fa (optName b) id (← blk.toNat?) ret)
+  | ["ibcbad"] => some .ibcRelayBad
   | ["pairs", "add", ps] => some (.pairsAdd (ps.splitOn "+"))
   | ["pairs", "del", ps] => some (.pairsDel (ps.splitOn "+"))
   | ["markets", k, ms] => do
